@@ -218,7 +218,13 @@ SkipTokens(s, n) ==
   ELSE LET t == DropLead(s)
            k == CHOOSE i \in 0 .. Len(t) : (i = Len(t) \/ t[i + 1] = " ") /\ \A j \in 1 .. i : t[j] # " "
        IN  SkipTokens(Rest(t, k), n - 1)
-RestOfLine(line, n) == DropTrail(DropLead(SkipTokens(line, n)))
+(* the rest is trimmed the way str::trim does it: of every white-space character, not only the blank that separates tokens [descriptive] *)
+TrimSet == {" ", "\t", "\n", "\r", "\f", " ", "　"}
+RECURSIVE TrimLead(_)
+TrimLead(s) == IF s # << >> /\ s[1] \in TrimSet THEN TrimLead(Tail(s)) ELSE s
+RECURSIVE TrimTrail(_)
+TrimTrail(s) == IF s # << >> /\ s[Len(s)] \in TrimSet THEN TrimTrail(SubSeq(s, 1, Len(s) - 1)) ELSE s
+RestOfLine(line, n) == TrimTrail(TrimLead(SkipTokens(line, n)))
 
 Names == [
   help |-> {"h", "help", "--help", "-h", ":h", "man", "info", "wtf"},
